@@ -3,6 +3,7 @@ import RaftModel.Driver.Proto
 import RaftModel.Driver.Quorum
 import RaftModel.Driver.ConfChange
 import RaftModel.Driver.RaftLog
+import RaftModel.Driver.Storage
 
 /-
 `rvm` — the model side of the correspondence check.
@@ -19,7 +20,9 @@ structure DState where
   p : Option RaftModel.P.PSys := none
   cc : Option Tracker := none
   rl : Option RaftLog := none
+  ms : Option MemStorage := none
   lines : Nat := 0
+  tag : String := ""   -- argument of the last `p new` line (the run's seed)
   compared : Nat := 0
   mismatches : Nat := 0
   skipped : Nat := 0
@@ -41,6 +44,7 @@ def dispatch (st : DState) (comp : String) (cmd : List String) : DState × Strin
   | "q" => (st, handleQuorum cmd)
   | "cc" => let (s, o) := handleCc st.cc cmd; ({ st with cc := s }, o)
   | "rl" => let (s, o) := handleRL st.rl cmd; ({ st with rl := s }, o)
+  | "ms" => let (s, o) := MS.handleMs st.ms cmd; ({ st with ms := s }, o)
   | _ => (st, "bad-op")
 
 /-- after a disagreement the component's sequence is abandoned until its next `new` -/
@@ -50,6 +54,7 @@ def abandon (st : DState) (comp : String) : DState :=
   | "p" => { st with p := none }
   | "cc" => { st with cc := none }
   | "rl" => { st with rl := none }
+  | "ms" => { st with ms := none }
   | _ => st
 
 def stepLine (st : DState) (line : String) : DState × Option String :=
@@ -59,6 +64,9 @@ def stepLine (st : DState) (line : String) : DState × Option String :=
   | some (lhs, rhs) =>
     match tokens lhs with
     | comp :: cmd =>
+      let st := match comp, cmd with
+        | "p", ["new", t] => { st with tag := t }
+        | _, _ => st
       let (st', obs) := dispatch st comp cmd
       let impl := " ".intercalate (tokens rhs)
       if obs == "skip" then ({ st' with skipped := st'.skipped + 1 }, none)
@@ -68,7 +76,7 @@ def stepLine (st : DState) (line : String) : DState × Option String :=
       else
         let st'' := abandon st' comp
         ({ st'' with compared := st''.compared + 1, mismatches := st''.mismatches + 1 },
-          some s!"MISMATCH line={st.lines} cmd=[{lhs}] model=[{obs}] impl=[{impl}]")
+          some s!"MISMATCH line={st.lines} cmd=[{lhs}] model=[{obs}] impl=[{impl}] tag=[{st.tag}]")
     | [] => ({ st with bad := st.bad + 1 }, some s!"BAD-LINE {st.lines} {line}")
 
 partial def loop (h : IO.FS.Stream) (st : DState) : IO DState := do
